@@ -115,7 +115,7 @@ Definition hashes_of (o : val) : list Z :=
   | VL l => flat_map (fun v => match v with VL [VZ h; _; _] => [h] | _ => [] end) l
   | _ => []
   end.
-(* a model result [0 id1 id2 ..] admits the observation [0 id] when id is one of them *)
+(* a model result [0 id1 id2 ..] accepts the observation [0 id] when id is one of them *)
 Definition res_agree (m o : val) : bool :=
   match m, o with
   | VL (VZ 0 :: ids), VL [VZ 0; VZ x] => existsb (fun v => val_eqb v (VZ x)) ids
